@@ -5,6 +5,7 @@ import (
 	"go/constant"
 	"go/token"
 	"go/types"
+	"sort"
 	"strings"
 
 	"golang.org/x/tools/go/ssa"
@@ -210,7 +211,13 @@ func (c *SpecCtx) lookupLocal(name string) (Val, bool) {
 			}
 		}
 		var found []Val
-		for v, x := range c.f.env {
+		var keys []ssa.Value
+		for v := range c.f.env {
+			keys = append(keys, v)
+		}
+		sort.Slice(keys, func(i, j int) bool { return keys[i].Name() < keys[j].Name() })
+		for _, v := range keys {
+			x := c.f.env[v]
 			switch vv := v.(type) {
 			case *ssa.Phi:
 				if vv.Comment == name {
@@ -362,7 +369,7 @@ func (c *SpecCtx) eval(e SExpr) Val {
 				c.errorf("index of untyped slice in %s", e)
 				return intV("0")
 			}
-			base := mkptr(sref(v.E), app("+", slo(v.E), i.E), "0")
+			base := mkptr(sref(v.E), addShift(slo(v.E), i.E), "0")
 			if isStruct(et) {
 				return c.f.en.mkVal(et, c.f.loadStructAt(et, base, c.heap))
 			}
@@ -411,6 +418,45 @@ func (c *SpecCtx) eval(e SExpr) Val {
 			decl = append(decl, fmt.Sprintf("(%s %s)", n, s))
 		}
 		sub := c.with(binds)
+		// Index shift (DESIGN §8.4): a quantifier "forall k :: { s[k] } ..." over a slice s is
+		// re-keyed by the absolute cell index j = lo(s) + k, so that its pattern is the plain
+		// (select row j) without arithmetic; k becomes j - lo(s) in the body.
+		if len(x.Vars) == 1 && x.Vars[0].Sort == "Int" && len(x.Triggers) > 0 {
+			kname := x.Vars[0].Name
+			shiftLo := ""
+			ok := true
+			for _, tr := range x.Triggers {
+				for _, t := range tr {
+					ix, isIx := t.(SIndex)
+					id, isId := SExpr(nil), false
+					if isIx {
+						id, isId = ix.I, true
+					}
+					if !isIx || !isId {
+						ok = false
+						continue
+					}
+					if nm, is := id.(SIdent); !is || nm.Name != kname {
+						ok = false
+						continue
+					}
+					sv := sub.eval(ix.X)
+					if sv.S != "Slice" {
+						ok = false
+						continue
+					}
+					if shiftLo == "" {
+						shiftLo = slo(sv.E)
+					} else if shiftLo != slo(sv.E) {
+						ok = false
+					}
+				}
+			}
+			if ok && shiftLo != "" {
+				j := "q!" + kname
+				sub.binds[kname] = Val{S: "Int", E: app("-", j, shiftLo), T: types.Typ[types.Int]}
+			}
+		}
 		body := sub.evalBool(x.Body)
 		var pats []string
 		for _, tr := range x.Triggers {
@@ -528,10 +574,22 @@ func (c *SpecCtx) evalBinary(x SBinary) Val {
 		if a.S == "Slice" && b.E == nilSlice {
 			return boolV(eq(sref(a.E), "0"))
 		}
+		if a.S == "Ptr" && b.E == nilPtr {
+			return boolV(eq(pref(a.E), "0"))
+		}
+		if b.S == "Ptr" && a.E == nilPtr {
+			return boolV(eq(pref(b.E), "0"))
+		}
 		return boolV(eq(a.E, b.E))
 	case "!=":
 		if a.S == "Slice" && b.E == nilSlice {
 			return boolV(not(eq(sref(a.E), "0")))
+		}
+		if a.S == "Ptr" && b.E == nilPtr {
+			return boolV(not(eq(pref(a.E), "0")))
+		}
+		if b.S == "Ptr" && a.E == nilPtr {
+			return boolV(not(eq(pref(b.E), "0")))
 		}
 		return boolV(not(eq(a.E, b.E)))
 	case "++":
@@ -1114,4 +1172,15 @@ func (en *Engine) lvalueComps(e SExpr, fn *ssa.Function) ([]lvTarget, bool) {
 		}
 	}
 	return ts, true
+}
+
+// addShift computes lo + i, cancelling the index shift (i == j - lo) introduced for quantifiers.
+func addShift(lo, i string) string {
+	if strings.HasPrefix(i, "(- q!") && strings.HasSuffix(i, " "+lo+")") {
+		return strings.TrimSuffix(strings.TrimPrefix(i, "(- "), " "+lo+")")
+	}
+	if lo == "0" {
+		return i
+	}
+	return app("+", lo, i)
 }
